@@ -175,7 +175,32 @@ def extract_range(ctx, F):
             n = n[1] if (n[0] == 'field' and n[2] == '0') else n
             if not (n[0] == 'bin' and n[1].startswith('Sub') and n[2] == ('param', 'end') and n[3] == ('param', 'start')):
                 problems.append('the number of copied entries is not end - start')
-            if not any(is_call(x, 'Iterator::skip') and x[2][0] == ('field', ('param', 'self'), 'operators') for x in walk(take[2][0])):
+            skipped_ok = any(is_call(x, 'Iterator::skip') and x[2][0] == ('field', ('param', 'self'), 'operators') for x in walk(take[2][0]))
+            if not skipped_ok:
+                # one iterator over self.operators, advanced past the prefix by `nth(start - 1)` (which also hands out the entry before
+                # `start`) when start > 0, and then taken from: the `take` must consume that same iterator object
+                nths = [(bb, t) for bb, t in b.calls() if Callee(t['func']).name == 'nth' and Callee(t['func']).trait == 'Iterator']
+                takes = [(bb, t) for bb, t in b.calls() if Callee(t['func']).name == 'take' and Callee(t['func']).trait == 'Iterator']
+                if len(nths) == 1 and len(takes) == 1 and s(R.call_args(nths[0][0])[0]) == s(OPS) and s(take[2][0]) == s(OPS):
+                    def base_local(op, depth=0):
+                        if op['k'] not in ('move', 'copy') or op['place']['proj'] or depth > 5:
+                            return None
+                        l = op['place']['local']
+                        defs = b.defs().get(l, [])
+                        if len(defs) == 1 and defs[0][1] != 'term':
+                            rv = b.blocks[defs[0][0]]['stmts'][defs[0][1]]['rv']
+                            if rv['k'] == 'ref' and not rv['place']['proj']:
+                                return rv['place']['local']
+                            if rv['k'] == 'use' and rv['op']['k'] in ('move', 'copy'):
+                                return base_local(rv['op'], depth + 1)
+                        return l
+                    same_obj = base_local(nths[0][1]['args'][0]) is not None and base_local(nths[0][1]['args'][0]) == base_local(takes[0][1]['args'][0])
+                    n_arg = R.call_args(nths[0][0])[1]
+                    n_arg = n_arg[1] if (n_arg[0] == 'field' and n_arg[2] == '0') else n_arg
+                    nth_ok = (is_call(n_arg, 'usize::checked_sub') and n_arg[2] == (('param', 'start'), ('const', 1))) or \
+                        (n_arg[0] == 'bin' and n_arg[1].startswith('Sub') and n_arg[2] == ('param', 'start') and n_arg[3] == ('const', 1))
+                    skipped_ok = same_obj and nth_ok
+            if not skipped_ok:
                 problems.append('entries are not taken from self.operators after skipping the prefix')
             if not (len(ws) == 1 and s(ws[0].value) == s(('field', it, '1')) and ws[0].bb == pushes[0].bb or (len(ws) == 1 and s(ws[0].value) == s(('field', it, '1')))):
                 problems.append('current_shape of the extracted architecture is not the shape recorded with the last copied layer')
@@ -205,6 +230,8 @@ def extract_range(ctx, F):
             elif a[0] == 'field' and a[2] == '1' and any(is_call(x, 'Iterator::skip') for x in walk(a)):
                 sk = [x for x in walk(a) if is_call(x, 'Iterator::skip')][0]
                 has_prev = start_minus_1(sk[2][1])
+            elif a[0] == 'field' and a[2] == '1' and is_call(a[1], 'Iterator::nth') and a[1][2][0] == ('field', ('param', 'self'), 'operators'):
+                has_prev = start_minus_1(a[1][2][1])
         ok_in = has_self and has_prev
     if not ok_in:
         problems.append('input shape is not {self.input_shape if start == 0, else the shape recorded with operator start-1}')
